@@ -2886,7 +2886,7 @@ class Angle(AngleBase):
             mat = Py_Matrix.from_angle(self)
             mat @= other
             return mat._to_angle(self)  # Inplace
-        elif isinstance(other, Py_Matrix):
+        elif isinstance(other, MatrixBase):
             mat = Py_Matrix.from_angle(self)
             mat._mat_mul(other)
             return mat._to_angle(self)
